@@ -46,12 +46,12 @@ Qed.
 Definition is1 : expr := IndexSum (ComponentTensor (Indexed M2 [Free 0; Free 1]) [(1, 2)]) 0 2.
 
 Theorem C05_indexed_index_sum_refuted :
-  exists a mi e, mk_indexed le_any ff_none false false 10 a mi = Some e /\
+  exists a mi e, mk_indexed le_any ff_none false false false 10 a mi = Some e /\
                  fidx e <> fidx (Indexed a mi).
 Proof. exists is1, [Free 0], (IndexSum (Indexed M2 [Free 0; Free 0]) 0 2). split; [reflexivity|discriminate]. Qed.
 
 Theorem C05_indexed_index_sum_refuted_value :
-  exists a mi e, mk_indexed le_any ff_none false false 10 a mi = Some e /\
+  exists a mi e, mk_indexed le_any ff_none false false false 10 a mi = Some e /\
     ~ (forall env D DX ki s rho, @den A env D DX ki s rho e [] = @den A env D DX ki s rho (Indexed a mi) []).
 Proof.
   exists is1, [Free 0], (IndexSum (Indexed M2 [Free 0; Free 0]) 0 2). split; [reflexivity|].
@@ -69,7 +69,7 @@ Definition lt4 : expr := ListTensor [Indexed V2 [Free 0]; Product (IntV 2) (Inde
 Definition ctk : expr := ComponentTensor (Indexed lt4 [Free 1]) [(0, 2)].
 
 Theorem C05_indexed_ct_keyerror_refuted :
-  exists a mi, mk_indexed le_any ff_none false false 10 a mi = None /\
+  exists a mi, mk_indexed le_any ff_none false false false 10 a mi = None /\
                length mi = length (shape a) /\ shape (Indexed a mi) = [] /\ fidx (Indexed a mi) = [(1, 2)].
 Proof. exists ctk, [Fixed 0]. repeat split. Qed.
 
@@ -77,14 +77,52 @@ Example C05_list_tensor_ct_repaired :
   mk_list_tensor true lt_perm = Some (ListTensor lt_perm) /\ mk_list_tensor true lt_part = Some (ListTensor lt_part).
 Proof. split; reflexivity. Qed.
 Example C05_indexed_index_sum_repaired :
-  mk_indexed le_any ff_none true true 10 is1 [Free 0] = Some (Indexed is1 [Free 0]).
+  mk_indexed le_any ff_none true true true 10 is1 [Free 0] = Some (Indexed is1 [Free 0]).
 Proof. reflexivity. Qed.
 Example C05_indexed_ct_keyerror_repaired :
-  mk_indexed le_any ff_none true true 10 ctk [Fixed 0] = Some (Indexed ctk [Fixed 0]).
+  mk_indexed le_any ff_none true true true 10 ctk [Fixed 0] = Some (Indexed ctk [Fixed 0]).
 Proof. reflexivity. Qed.
+
+(* 4. binder shortcuts applied to an operand that DEPENDS on the bound index ("diagonal" Indexed nodes, as
+      produced e.g. by index renaming passes).  L = ListTensor(v[i], w[i]) has the free index i = 0. *)
+Definition W2 : expr := Term 0 3 [2].
+Definition ltd : expr := ListTensor [Indexed V2 [Free 0]; Indexed W2 [Free 0]].
+Definition cltd : expr := Conj ltd.
+
+(* 4a. as_tensor(L[i], (i,)) -> L : ComponentTensor.__new__ before /repo a0002a9 (fx_cn = false), and still
+       the function as_tensor() (fx_at = false): free index i appears although it is bound *)
+Theorem C05_component_tensor_dependent_refuted :
+  exists a jj e, mk_component_tensor false a jj = Some e /\ fidx e <> fidx (ComponentTensor a jj).
+Proof. exists (Indexed ltd [Free 0]), [(0, 2)], ltd. split; [reflexivity|discriminate]. Qed.
+Theorem C05_as_tensor_dependent_refuted :
+  exists a jj e, mk_as_tensor true false a jj = Some e /\ fidx e <> fidx (ComponentTensor a jj).
+Proof. exists (Indexed ltd [Free 0]), [(0, 2)], ltd. split; [reflexivity|discriminate]. Qed.
+Example C05_component_tensor_dependent_repaired :
+  mk_component_tensor true (Indexed ltd [Free 0]) [(0, 2)] = Some (ComponentTensor (Indexed ltd [Free 0]) [(0, 2)]) /\
+  mk_as_tensor true true (Indexed ltd [Free 0]) [(0, 2)] = Some (ComponentTensor (Indexed ltd [Free 0]) [(0, 2)]).
+Proof. split; reflexivity. Qed.
+
+(* 4b. ComponentTensor._simplify_indexed: as_tensor(C[i], (i,))[0] -> C[0] although C depends on i, and the
+       ListTensor pre-step selects the entry v[i] and forgets to substitute i := 0 in it *)
+Definition ctd : expr := ComponentTensor (Indexed cltd [Free 0]) [(0, 2)].
+Definition ctd2 : expr := ComponentTensor (Indexed ltd [Free 0]) [(0, 2)].
+Theorem C05_indexed_ct_dependent_refuted :
+  exists a mi e, mk_indexed le_any ff_none true true false 10 a mi = Some e /\ fidx (Indexed a mi) = [] /\ fidx e <> [].
+Proof. exists ctd, [Fixed 0], (Indexed cltd [Fixed 0]). repeat split; discriminate. Qed.
+Theorem C05_indexed_ct_prestep_dependent_refuted :
+  exists a mi e, mk_indexed le_any ff_none true true false 10 a mi = Some e /\ fidx (Indexed a mi) = [] /\ fidx e <> [].
+Proof. exists ctd2, [Fixed 0], (Indexed V2 [Free 0]). repeat split; discriminate. Qed.
+Example C05_indexed_ct_dependent_repaired :
+  mk_indexed le_any ff_none true true true 10 ctd [Fixed 0] = Some (Indexed ctd [Fixed 0]) /\
+  mk_indexed le_any ff_none true true true 10 ctd2 [Fixed 0] = Some (Indexed ctd2 [Fixed 0]).
+Proof. split; reflexivity. Qed.
 
 Print Assumptions C05_list_tensor_ct_refuted_shape.
 Print Assumptions C05_list_tensor_ct_refuted_value.
 Print Assumptions C05_indexed_index_sum_refuted.
 Print Assumptions C05_indexed_index_sum_refuted_value.
 Print Assumptions C05_indexed_ct_keyerror_refuted.
+Print Assumptions C05_component_tensor_dependent_refuted.
+Print Assumptions C05_as_tensor_dependent_refuted.
+Print Assumptions C05_indexed_ct_dependent_refuted.
+Print Assumptions C05_indexed_ct_prestep_dependent_refuted.
